@@ -1,4 +1,222 @@
 //! Kani proof harnesses compiled as a child module of vrp-core/src/models/problem/costs.rs (cfg(kani) only).
+//!
+//! C16: the time-agnostic matrix provider returns exactly the supplied entries (durations scaled, distances not),
+//! inconsistent matrix sets are rejected, negative (unreachable) entries pass through.
+use super::*;
+use crate::construction::heuristics::RouteContext;
+use crate::models::common::Dimensions;
+use crate::models::problem::{Actor, Vehicle};
+use crate::verif_support::*;
+
+fn any_entry() -> Float {
+    // i8: includes negative values (the "unreachable" marker is a negative entry)
+    let v: i8 = kani::any();
+    v as Float
+}
+
+fn any_matrix<const L: usize>() -> [Float; L] {
+    let mut m = [0.; L];
+    let mut idx = 0;
+    while idx < L {
+        m[idx] = any_entry();
+        idx += 1;
+    }
+    m
+}
+
+fn any_scale() -> Float {
+    let k: u8 = kani::any();
+    match k % 4 {
+        0 => 1.,
+        1 => 2.,
+        2 => 0.5,
+        _ => 4.,
+    }
+}
+
+fn actor_with_profile(profile: Profile) -> Arc<Actor> {
+    let vehicle = Arc::new(Vehicle { profile, costs: costs(0., 0., 0.), dimens: Dimensions::default(), details: vec![] });
+    actor_with(vehicle, 0, 0., Some(0), 1000.)
+}
+
+/// Stub for the time-aware constructor in harnesses that pass no timestamps at all: CBMC cannot constant-fold
+/// `timestamp.is_some()` read from heap `Vec<MatrixData>` and would otherwise explore the std `HashMap` behind the
+/// time-aware provider. Reaching the stub is a verification failure, so a wrong dispatch is still detected.
+fn time_aware_must_not_be_built<T: TransportFallback>(
+    _: Vec<MatrixData>,
+    _: usize,
+    _: T,
+) -> Result<TimeAwareMatrixTransportCost<T>, GenericError> {
+    panic!("time-aware provider selected for a matrix set without timestamps")
+}
+
+fn agnostic_values<const N: usize, const L: usize>() {
+    let (dur0, dist0, dur1, dist1) = (any_matrix::<L>(), any_matrix::<L>(), any_matrix::<L>(), any_matrix::<L>());
+    let m0 = MatrixData::new(0, None, dur0.to_vec(), dist0.to_vec());
+    let m1 = MatrixData::new(1, None, dur1.to_vec(), dist1.to_vec());
+    let swap: bool = kani::any();
+    // the concrete provider type is built directly: a call through `Arc<dyn TransportCost>` makes CBMC explore every
+    // implementor of the trait, including the HashMap-backed time-aware one (the dispatcher has its own harness below)
+    let provider = TimeAgnosticMatrixTransportCost::new(if swap { vec![m1, m0] } else { vec![m0, m1] }, N, NoFallback);
+    let provider = match provider {
+        Ok(provider) => provider,
+        Err(_) => panic!("a consistent matrix set must be accepted"),
+    };
+    assert!(provider.size() == N);
+
+    let (p, from, to): (usize, usize, usize) = (kani::any(), kani::any(), kani::any());
+    kani::assume(p < 2 && from < N && to < N);
+    let scale = any_scale();
+    let profile = Profile::new(p, Some(scale));
+    let (dur, dist) = if p == 0 { (&dur0, &dist0) } else { (&dur1, &dist1) };
+
+    let expected_duration = dur[from * N + to] * scale;
+    let expected_distance = dist[from * N + to];
+    assert!(provider.duration_approx(&profile, from, to) == expected_duration);
+    assert!(provider.distance_approx(&profile, from, to) == expected_distance);
+    // unreachable entries surface as negative values
+    assert!((dur[from * N + to] < 0.) == (provider.duration_approx(&profile, from, to) < 0.));
+    assert!((dist[from * N + to] < 0.) == (provider.distance_approx(&profile, from, to) < 0.));
+
+    // every vehicle of that profile gets the same answers through the route based API, whatever the time
+    let route_ctx = RouteContext::new(actor_with_profile(profile.clone()));
+    let time: Float = any_u16f();
+    let tt = if kani::any() { TravelTime::Departure(time) } else { TravelTime::Arrival(time) };
+    assert!(provider.duration(route_ctx.route(), from, to, tt) == expected_duration);
+    assert!(provider.distance(route_ctx.route(), from, to, tt) == expected_distance);
+
+    kani::cover!(swap && p == 1 && from != to, "second-profile-given-first");
+    kani::cover!(expected_duration < 0., "unreachable");
+    std::mem::forget((provider, route_ctx));
+}
+
+// @verif props=C16 tier=quick ob=agnostic_values fn=create_matrix_transport_cost,TimeAgnosticMatrixTransportCost::new,TimeAgnosticMatrixTransportCost::duration_approx,TimeAgnosticMatrixTransportCost::distance_approx,TimeAgnosticMatrixTransportCost::duration,TimeAgnosticMatrixTransportCost::distance bounds="2 profiles x 2x2 matrices, entries any i8 as f64 (negative = unreachable), either input order, scale in {0.5,1,2,4}" stubs="f64::sqrt := exact table on 0..=16;Arc::drop_slow := no-op;TimeAwareMatrixTransportCost::new := panic (must be unreachable without timestamps)"
+#[kani::proof]
+#[kani::unwind(6)]
+#[kani::stub(f64::sqrt, crate::verif_support::sqrt_small)]
+#[kani::stub(std::sync::Arc::drop_slow, crate::verif_support::arc_drop_noop)]
+#[kani::stub(TimeAwareMatrixTransportCost::new, time_aware_must_not_be_built)]
+fn c16_agnostic_values_2x2() {
+    agnostic_values::<2, 4>();
+}
+
+// @verif props=C16 tier=thorough ob=agnostic_values fn=create_matrix_transport_cost,TimeAgnosticMatrixTransportCost::new,TimeAgnosticMatrixTransportCost::duration_approx,TimeAgnosticMatrixTransportCost::distance_approx bounds="2 profiles x 3x3 matrices, entries any i8 as f64, either input order, scale in {0.5,1,2,4}" stubs="f64::sqrt := exact table on 0..=16;Arc::drop_slow := no-op;TimeAwareMatrixTransportCost::new := panic (must be unreachable without timestamps)"
+#[kani::proof]
+#[kani::unwind(11)]
+#[kani::stub(f64::sqrt, crate::verif_support::sqrt_small)]
+#[kani::stub(std::sync::Arc::drop_slow, crate::verif_support::arc_drop_noop)]
+#[kani::stub(TimeAwareMatrixTransportCost::new, time_aware_must_not_be_built)]
+fn c16_agnostic_values_3x3() {
+    agnostic_values::<3, 9>();
+}
+
+fn matrix(index: usize, timestamp: Option<Float>, dur_len: usize, dist_len: usize) -> MatrixData {
+    MatrixData::new(index, timestamp, vec![1.; dur_len], vec![1.; dist_len])
+}
+
+// @verif props=C16 tier=quick ob=agnostic_reject fn=create_matrix_transport_cost,TimeAgnosticMatrixTransportCost::new bounds="empty matrix set; matrix lengths in {1,4,9}" stubs="f64::sqrt := exact table on 0..=16;Arc::drop_slow := no-op;TimeAwareMatrixTransportCost::new := panic (must be unreachable without timestamps)"
+#[kani::proof]
+#[kani::unwind(11)]
+#[kani::stub(f64::sqrt, crate::verif_support::sqrt_small)]
+#[kani::stub(std::sync::Arc::drop_slow, crate::verif_support::arc_drop_noop)]
+#[kani::stub(TimeAwareMatrixTransportCost::new, time_aware_must_not_be_built)]
+fn c16_reject_empty() {
+    assert!(create_matrix_transport_cost(vec![]).is_err());
+    kani::cover!(true, "reached");
+}
+
+// @verif props=C16 tier=quick ob=agnostic_reject fn=create_matrix_transport_cost,TimeAgnosticMatrixTransportCost::new bounds="|distances| != |durations| in one matrix; matrix lengths in {1,4,9}" stubs="f64::sqrt := exact table on 0..=16;Arc::drop_slow := no-op;TimeAwareMatrixTransportCost::new := panic (must be unreachable without timestamps)"
+#[kani::proof]
+#[kani::unwind(11)]
+#[kani::stub(f64::sqrt, crate::verif_support::sqrt_small)]
+#[kani::stub(std::sync::Arc::drop_slow, crate::verif_support::arc_drop_noop)]
+#[kani::stub(TimeAwareMatrixTransportCost::new, time_aware_must_not_be_built)]
+fn c16_reject_len_mismatch() {
+    assert!(create_matrix_transport_cost(vec![matrix(0, None, 4, 9)]).is_err());
+    assert!(create_matrix_transport_cost(vec![matrix(0, None, 4, 4), matrix(1, None, 4, 1)]).is_err());
+    kani::cover!(true, "reached");
+}
+
+// @verif props=C16 tier=quick ob=agnostic_reject fn=create_matrix_transport_cost,TimeAgnosticMatrixTransportCost::new bounds="different sizes across matrices (either order); matrix lengths in {1,4,9}" stubs="f64::sqrt := exact table on 0..=16;Arc::drop_slow := no-op;TimeAwareMatrixTransportCost::new := panic (must be unreachable without timestamps)"
+#[kani::proof]
+#[kani::unwind(11)]
+#[kani::stub(f64::sqrt, crate::verif_support::sqrt_small)]
+#[kani::stub(std::sync::Arc::drop_slow, crate::verif_support::arc_drop_noop)]
+#[kani::stub(TimeAwareMatrixTransportCost::new, time_aware_must_not_be_built)]
+fn c16_reject_size_mismatch() {
+    assert!(create_matrix_transport_cost(vec![matrix(0, None, 4, 4), matrix(1, None, 9, 9)]).is_err());
+    assert!(create_matrix_transport_cost(vec![matrix(1, None, 9, 9), matrix(0, None, 4, 4)]).is_err());
+    kani::cover!(true, "reached");
+}
+
+// @verif props=C16 tier=quick ob=agnostic_reject fn=create_matrix_transport_cost,TimeAgnosticMatrixTransportCost::new bounds="duplicate profile index without timestamps; matrix lengths in {1,4,9}" stubs="f64::sqrt := exact table on 0..=16;Arc::drop_slow := no-op;TimeAwareMatrixTransportCost::new := panic (must be unreachable without timestamps)"
+#[kani::proof]
+#[kani::unwind(11)]
+#[kani::stub(f64::sqrt, crate::verif_support::sqrt_small)]
+#[kani::stub(std::sync::Arc::drop_slow, crate::verif_support::arc_drop_noop)]
+#[kani::stub(TimeAwareMatrixTransportCost::new, time_aware_must_not_be_built)]
+fn c16_reject_duplicate_profile() {
+    assert!(create_matrix_transport_cost(vec![matrix(0, None, 4, 4), matrix(0, None, 4, 4)]).is_err());
+    kani::cover!(true, "reached");
+}
+
+// @verif props=C16 tier=quick ob=agnostic_reject fn=create_matrix_transport_cost,TimeAgnosticMatrixTransportCost::new bounds="profile indices with a gap; matrix lengths in {1,4,9}" stubs="f64::sqrt := exact table on 0..=16;Arc::drop_slow := no-op;TimeAwareMatrixTransportCost::new := panic (must be unreachable without timestamps)"
+#[kani::proof]
+#[kani::unwind(11)]
+#[kani::stub(f64::sqrt, crate::verif_support::sqrt_small)]
+#[kani::stub(std::sync::Arc::drop_slow, crate::verif_support::arc_drop_noop)]
+#[kani::stub(TimeAwareMatrixTransportCost::new, time_aware_must_not_be_built)]
+fn c16_reject_gap_profile() {
+    assert!(create_matrix_transport_cost(vec![matrix(0, None, 4, 4), matrix(2, None, 4, 4)]).is_err());
+    kani::cover!(true, "reached");
+}
+
+// @verif props=C16 tier=quick ob=agnostic_reject fn=create_matrix_transport_cost,TimeAgnosticMatrixTransportCost::new bounds="timestamped matrix handed to the time-agnostic provider; matrix lengths in {1,4,9}" stubs="f64::sqrt := exact table on 0..=16;Arc::drop_slow := no-op;TimeAwareMatrixTransportCost::new := panic (must be unreachable without timestamps)"
+#[kani::proof]
+#[kani::unwind(11)]
+#[kani::stub(f64::sqrt, crate::verif_support::sqrt_small)]
+#[kani::stub(std::sync::Arc::drop_slow, crate::verif_support::arc_drop_noop)]
+#[kani::stub(TimeAwareMatrixTransportCost::new, time_aware_must_not_be_built)]
+fn c16_reject_timestamp_in_agnostic() {
+    let t: Float = any_u8f();
+    assert!(TimeAgnosticMatrixTransportCost::new(vec![matrix(0, None, 4, 4), matrix(1, Some(t), 4, 4)], 2, NoFallback).is_err());
+    kani::cover!(true, "reached");
+}
+
+// @verif props=C16 tier=quick ob=agnostic_reject fn=create_matrix_transport_cost,TimeAgnosticMatrixTransportCost::new bounds="consistent twin (2 profiles, given in reverse order) is accepted with size 2; matrix lengths in {1,4,9}" stubs="f64::sqrt := exact table on 0..=16;Arc::drop_slow := no-op;TimeAwareMatrixTransportCost::new := panic (must be unreachable without timestamps)"
+#[kani::proof]
+#[kani::unwind(11)]
+#[kani::stub(f64::sqrt, crate::verif_support::sqrt_small)]
+#[kani::stub(std::sync::Arc::drop_slow, crate::verif_support::arc_drop_noop)]
+#[kani::stub(TimeAwareMatrixTransportCost::new, time_aware_must_not_be_built)]
+fn c16_reject_consistent_accepted() {
+    let ok = create_matrix_transport_cost(vec![matrix(1, None, 4, 4), matrix(0, None, 4, 4)]);
+    assert!(ok.as_ref().is_ok_and(|provider| provider.size() == 2));
+    std::mem::forget(ok);
+    kani::cover!(true, "reached");
+}
+
+// @verif props=C16 tier=quick ob=simple_values fn=SimpleTransportCost::new,SimpleTransportCost::duration_approx,SimpleTransportCost::distance_approx bounds="one 2x2 matrix, entries any i8 as f64; mismatching lengths rejected" stubs="f64::sqrt := exact table on 0..=16"
+#[kani::proof]
+#[kani::unwind(11)]
+#[kani::stub(f64::sqrt, crate::verif_support::sqrt_small)]
+fn c16_simple_transport_cost() {
+    let (dur, dist) = (any_matrix::<4>(), any_matrix::<4>());
+    let provider = SimpleTransportCost::new(dur.to_vec(), dist.to_vec());
+    let provider = match provider {
+        Ok(provider) => provider,
+        Err(_) => panic!("consistent data must be accepted"),
+    };
+    let (from, to): (usize, usize) = (kani::any(), kani::any());
+    kani::assume(from < 2 && to < 2);
+    let profile = Profile::new(0, Some(any_scale()));
+    assert!(provider.size() == 2);
+    assert!(provider.duration_approx(&profile, from, to) == dur[from * 2 + to]);
+    assert!(provider.distance_approx(&profile, from, to) == dist[from * 2 + to]);
+    assert!(SimpleTransportCost::new(vec![1.; 4], vec![1.; 9]).is_err());
+    kani::cover!(from == 1 && to == 0, "off-diagonal");
+    std::mem::forget(provider);
+}
 
 // Concrete-playback replays (`cargo kani playback`) are compiled from here; the file is written by /verif/check.
 #[cfg(all(kani, test))]
